@@ -440,6 +440,11 @@ class Init(Contract):
             if isinstance(out, RaiseExc):
                 eng.oblige(f"{self.qualname}.exc.only_library_errors", s, z3.BoolVal(out.cls in libs), kind="exc", site=fi.lineno,
                            note=f"raises {out.cls.__name__}", observe=obsv)
+                if out.cls is exc("RTCMMessageError"):
+                    # any payload that holds a message number is at least a stub (C15): the message error is reserved for
+                    # payloads too short to carry an identity
+                    eng.oblige(f"{self.qualname}.exc.message_error_only_without_identity_header", s, z3.Not(hh), kind="exc", site=fi.lineno,
+                               observe=obsv)
                 continue
             canary.append(s)
             obj = s.obj(selfv)
